@@ -215,6 +215,27 @@ theorem acceptSparse_sound {tol : Rat} (htol : 0 ≤ tol) {m : POMDP} (h : accep
   · intro s1 a hs1 ha
     exact ((isProbRowSp_iff tol m.O _).mp (allLt_iff.mp (allLt_iff.mp hO a ha) s1 hs1)).1
 
+theorem absQ_sub_comm (a b : Rat) : absQ (a - b) = absQ (b - a) := by
+  rw [absQ_eq_abs, absQ_eq_abs, abs_sub_comm]
+
+theorem convRowSp_iff (tol : Rat) (n : Nat) (row : Nat → Rat) :
+    convRowSp tol n row = true ↔
+      (∀ i, i < n → 0 ≤ row i ∧ row i ≤ 1) ∧ absQ (sumTo n (fun i => keep tol (row i)) - 1) ≤ tol := by
+  unfold convRowSp diffSmall eqSmall
+  rw [Bool.and_eq_true, allLt_iff, absQ_sub_comm]
+  simp only [Bool.not_not, decide_eq_true_eq, Bool.not_eq_true', Bool.or_eq_false_iff, decide_eq_false_iff_not, not_lt]
+
+/-- the converting constructors `SparseModel(const M&)` construct only if what they store is an accepted model -/
+theorem acceptSparseConv_sound {tol : Rat} (htol : 0 ≤ tol) {m : POMDP} (h : acceptSparseConv tol m = true) :
+    AcceptedModel tol (sparsify tol m) := by
+  unfold acceptSparseConv at h
+  rw [Bool.and_eq_true, allLt_iff, allLt_iff] at h
+  obtain ⟨hT, hO⟩ := h
+  have hT' := fun s a (hs : s < m.S) (ha : a < m.A) => (convRowSp_iff tol m.S _).mp (allLt_iff.mp (hT s hs) a ha)
+  have hO' := fun s1 a (hs1 : s1 < m.S) (ha : a < m.A) => (convRowSp_iff tol m.O _).mp (allLt_iff.mp (hO a ha) s1 hs1)
+  have hn : NonnegModel m := ⟨fun s a s1 hs ha hs1 => ((hT' s a hs ha).1 s1 hs1).1, fun s1 a o hs1 ha ho => ((hO' s1 a hs1 ha).1 o ho).1⟩
+  exact ⟨sparsify_nonneg hn htol, fun s a hs ha => (hT' s a hs ha).2, fun s1 a hs1 ha => (hO' s1 a hs1 ha).2⟩
+
 /-! ## the property's clauses on accepted models -/
 
 /-- EXACT identity behind "over all observations it adds up to the prediction", for ANY tables: the sum over `o` of the
@@ -327,6 +348,89 @@ theorem default_update (S A O : Nat) (b : Vec) (a : Nat) {s1 : Nat} (hs1 : s1 < 
     have : ¬ o = 0 := by omega
     simp only [this, if_false, zero_mul]
 
+/-! ## sparse storage on accepted models, and sparse kernels over any storage pattern -/
+
+/-- `sparse_within_two_tol` for every model the constructors accept (rows within `t` of one, not exactly one):
+    dense minus sparse unnormalised update lies in `[0, 2·tol·(1+t)]` per entry -/
+theorem sparse_within_two_tol_accepted {tol t : Rat} {m : POMDP} (hm : AcceptedModel t m) {b : Vec} (hb : IsBelief m.S b)
+    (htol0 : 0 ≤ tol) {a o : Nat} (ha : a < m.A) (ho : o < m.O) {s1 : Nat} (hs1 : s1 < m.S) :
+    0 ≤ unnormG m b a o s1 - unnormG (sparsify tol m) b a o s1 ∧
+    unnormG m b a o s1 - unnormG (sparsify tol m) b a o s1 ≤ 2 * tol * (1 + t) := by
+  have ht0 : 0 ≤ t := le_trans (absQ_nonneg _) (hm.T_sum s1 a hs1 ha)
+  unfold unnormG sparsify
+  simp only
+  set P := sumTo m.S (fun s => m.T s a s1 * b s)
+  set P' := sumTo m.S (fun s => keep tol (m.T s a s1) * b s)
+  have hT := fun s (hs : s < m.S) => keep_bounds htol0 (hm.T_nonneg s a s1 hs ha hs1)
+  have hO := keep_bounds htol0 (hm.O_nonneg s1 a o hs1 ha ho)
+  have hP'0 : 0 ≤ P' := sumTo_nonneg (fun s hs => mul_nonneg (hT s hs).1 (hb.nonneg s hs))
+  have hP'P : P' ≤ P := sumTo_le_sumTo (fun s hs => mul_le_mul_of_nonneg_right (hT s hs).2.1 (hb.nonneg s hs))
+  have hT1 : ∀ s, s < m.S → m.T s a s1 ≤ 1 + t := by
+    intro s hs
+    have h1 : m.T s a s1 ≤ sumTo m.S (fun k => m.T s a k) :=
+      le_sumTo_of_nonneg (f := fun k => m.T s a k) (fun k hk => hm.T_nonneg s a k hs ha hk) hs1
+    have h2 := (absQ_le_iff.mp (hm.T_sum s a hs ha)).2
+    linarith
+  have hP1 : P ≤ 1 + t := by
+    have : P ≤ sumTo m.S (fun s => (1 + t) * b s) := sumTo_le_sumTo (fun s hs =>
+      mul_le_mul_of_nonneg_right (hT1 s hs) (hb.nonneg s hs))
+    rw [sumTo_mul_left, hb.sum_one, mul_one] at this; exact this
+  have hdP : P - P' ≤ tol := by
+    have e : P - P' = sumTo m.S (fun s => (m.T s a s1 - keep tol (m.T s a s1)) * b s) := by
+      have : (fun s => (m.T s a s1 - keep tol (m.T s a s1)) * b s)
+          = (fun s => m.T s a s1 * b s + (-1) * (keep tol (m.T s a s1) * b s)) := by funext s; ring
+      rw [this, sumTo_add, sumTo_mul_left]; ring
+    rw [e]
+    have : sumTo m.S (fun s => (m.T s a s1 - keep tol (m.T s a s1)) * b s) ≤ sumTo m.S (fun s => tol * b s) :=
+      sumTo_le_sumTo (fun s hs => mul_le_mul_of_nonneg_right (hT s hs).2.2 (hb.nonneg s hs))
+    rw [sumTo_mul_left, hb.sum_one, mul_one] at this; exact this
+  have hO1 : m.Ob s1 a o ≤ 1 + t := by
+    have h1 : m.Ob s1 a o ≤ sumTo m.O (fun k => m.Ob s1 a k) :=
+      le_sumTo_of_nonneg (f := fun k => m.Ob s1 a k) (fun k hk => hm.O_nonneg s1 a k hs1 ha hk) ho
+    have h2 := (absQ_le_iff.mp (hm.O_sum s1 a hs1 ha)).2
+    linarith
+  have hP0 : 0 ≤ P := le_trans hP'0 hP'P
+  obtain ⟨hk0, hkO, hdO⟩ := hO
+  have e : m.Ob s1 a o * P - keep tol (m.Ob s1 a o) * P'
+      = (m.Ob s1 a o - keep tol (m.Ob s1 a o)) * P + keep tol (m.Ob s1 a o) * (P - P') := by ring
+  rw [e]
+  have hdP0 : 0 ≤ P - P' := by linarith
+  have hdO0 : 0 ≤ m.Ob s1 a o - keep tol (m.Ob s1 a o) := by linarith
+  constructor
+  · exact add_nonneg (mul_nonneg hdO0 hP0) (mul_nonneg hk0 hdP0)
+  · have h1 : (m.Ob s1 a o - keep tol (m.Ob s1 a o)) * P ≤ tol * (1 + t) := mul_le_mul hdO hP1 hP0 htol0
+    have h2 : keep tol (m.Ob s1 a o) * (P - P') ≤ (1 + t) * tol :=
+      mul_le_mul (le_trans hkO hO1) hdP hdP0 (by linarith)
+    linarith
+
+/-- a sparse kernel visits the STORED positions only; `pat i` = position `i` is stored.  Eigen stores whatever was inserted:
+    possibly explicit zeros, possibly not every zero (uncompressed or compressed alike) -/
+def sumToPat (pat : Nat → Bool) : Nat → (Nat → Rat) → Rat
+  | 0, _ => 0
+  | n+1, f => if pat n then sumToPat pat n f + f n else sumToPat pat n f
+
+/-- whatever the storage pattern, as long as every position that is NOT stored holds a zero, the sparse sum is the dense sum
+    (generalises `sumToNZ_eq`: explicit zeros, uncompressed matrices and fully compressed ones all give the same update) -/
+theorem sumToPat_eq (pat : Nat → Bool) (f : Nat → Rat) : ∀ n, (∀ i, i < n → pat i = false → f i = 0) →
+    sumToPat pat n f = sumTo n f
+  | 0, _ => rfl
+  | n+1, h => by
+    have ih := sumToPat_eq pat f n (fun i hi => h i (Nat.lt_succ_of_lt hi))
+    simp only [sumToPat, sumTo]
+    cases hp : pat n
+    · simp only [Bool.false_eq_true, if_false]
+      rw [ih, h n (Nat.lt_succ_self n) hp, add_zero]
+    · simp only [if_true]; rw [ih]
+
+/-- the sparse unnormalised update under ANY storage pattern of `T_a` (per column) equals the loop reading -/
+theorem unnormPat_eq_unnormG (m : POMDP) (pat : Nat → Nat → Bool) (b : Vec) (a o : Nat)
+    (h : ∀ s s1, pat s s1 = false → m.T s a s1 = 0) (s1 : Nat) :
+    m.Ob s1 a o * sumToPat (fun s => pat s s1) m.S (fun s => b s * m.T s a s1) = unnormG m b a o s1 := by
+  rw [sumToPat_eq _ _ m.S (fun s _ hp => by rw [h s s1 hp, mul_zero])]
+  unfold unnormG
+  congr 1
+  exact sumTo_congr (fun s _ => mul_comm _ _)
+
 /-! ## examples: the hypotheses are satisfiable by non-trivial values -/
 
 /-- an accepted model that is NOT a valid one: a transition row summing to `1 + 1/2000000`, an observation row to `1 - 1/2000000` -/
@@ -360,6 +464,9 @@ theorem exNear_accepted : AcceptedModel (1/1000000) exNear := by
 example : ¬ ValidModel exNear := fun h => by
   have := h.T_sum 0 0 (by decide) (by decide)
   norm_num [exNear, ofList2, sumTo] at this
+
+example : sumToPat (fun i => i != 1) 3 (ofList [1/2, 0, 1/4]) = sumTo 3 (ofList [1/2, 0, 1/4]) :=
+  sumToPat_eq _ _ 3 (fun i hi hp => by interval_cases i <;> simp_all [ofList])
 
 example : obsProbB exM exB 0 0 = 53/128 := by rw [obsProbB_eq_probO]; exact ex_probO
 
